@@ -284,7 +284,8 @@ Proof.
     apply str_eqb_eq in C.
     match type of H with (if ?b then _ else _) = _ => destruct b; [| discriminate] end.
     auto.
-  - destruct (k_priv self) eqn:P; simpl in H; [| discriminate].
+  - destruct (str_eqb (k_kty other) (s_ "EC")); simpl in H; [| discriminate].
+    destruct (k_priv self) eqn:P; simpl in H; [| discriminate].
     destruct (str_eqb (k_crv self) (k_crv other)) eqn:C; simpl in H; [| discriminate].
     apply str_eqb_eq in C. auto.
 Qed.
@@ -303,10 +304,10 @@ Lemma dec_auk_epk O a e hs r tag k :
 Proof.
   unfold dec_auk. destruct (fam_is (ea_family a) "ECDH1PU") eqn:F; intro H.
   - unfold ecdh1pu_dec_auk in H.
-    inv_bind H. inv_bind H. inv_bind H. rename x1 into sk. inv_bind H. rename x1 into epk.
-    inv_bind H. rename x1 into zs. inv_bind H. rename x1 into ze.
-    apply exchange_gate in E3. apply exchange_gate in E4.
-    destruct E3 as [P1 [C1 Z1]]. destruct E4 as [P2 [C2 Z2]].
+    inv_bind H. inv_bind H. inv_bind H. rename x1 into sk. inv_bind H. inv_bind H. rename x2 into epk.
+    inv_bind H. rename x2 into zs. inv_bind H. rename x2 into ze.
+    apply exchange_gate in E4. apply exchange_gate in E5.
+    destruct E4 as [P1 [C1 Z1]]. destruct E5 as [P2 [C2 Z2]].
     unfold assert_in in E0. destruct (dmem hs (asc "epk")) eqn:M; [| discriminate].
     exists epk, ze. repeat split; auto.
     intros _. exists sk, zs. repeat split; auto.
@@ -336,7 +337,8 @@ Lemma exchange_curve_mismatch O self other :
 Proof.
   intro N. unfold exchange.
   assert (C : str_eqb (k_crv self) (k_crv other) = false) by (apply str_eqb_neq; exact N).
-  rewrite C. destruct (str_eqb (k_kty self) (s_ "OKP")); destruct (k_priv self); reflexivity.
+  rewrite C. destruct (str_eqb (k_kty self) (s_ "OKP")); destruct (k_priv self);
+    destruct (str_eqb (k_kty other) (s_ "EC")); reflexivity.
 Qed.
 
 (* ---------- tamper family, under explicit ideal-primitive premises ---------- *)
